@@ -19,6 +19,7 @@ GEN = {
     "tables": {"quick": ("MC_Heap_tables_quick.cfg", 5, 1), "thorough": ("MC_Heap_tables_quick.cfg", 6, 2)},
     "tables2": {"quick": ("MC_Heap_tables2_gen.cfg", 4, 1), "thorough": ("MC_Heap_tables2_gen.cfg", 5, 2)},
     "tables2deep": {"quick": ("MC_Heap_tables2_gen.cfg", 5, 1), "thorough": ("MC_Heap_tables2_gen.cfg", 6, 1)},
+    "fp": {"quick": ("MC_Heap_fp_quick.cfg", 7, 1), "thorough": ("MC_Heap_fp_quick.cfg", 9, 2)},
     "names":  {"quick": ("MC_Heap_names_quick.cfg", 6, 1),  "thorough": ("MC_Heap_names_quick.cfg", 7, 2)},
 }
 DEVS = {
